@@ -14,6 +14,7 @@ import (
 
 	"verif/engine"
 	"verif/pure"
+	"verif/ref"
 )
 
 // C17 — queries, encoders and decoders are pure and safe to call concurrently.
@@ -27,6 +28,13 @@ type c17Case struct {
 	Fns     []string `json:"fns"`
 	Inputs  []string `json:"inputs"`
 	Choices []int    `json:"choices,omitempty"`
+}
+
+// c17LiveCase is one query / in-place change / query history of part (A3).
+type c17LiveCase struct {
+	G    *ref.G   `json:"g"`
+	Step liveStep `json:"step"`
+	Fn   string   `json:"fn"`
 }
 
 func init() {
@@ -233,6 +241,55 @@ func c17Run(c *engine.Ctx) {
 			c.Violate("purity/"+fns[f].Name+"/global-state-changed", "package-level state changed during the tuple family: "+diffAt(glob, g2), "tuple", c17Case{Part: "tuple", Fns: []string{fns[f].Name}, Inputs: []string{"tuple0"}})
 		}
 	}
+	// (A3) hidden per-object state: f(g); an in-place change of g through the public API; f(g)
+	// again must equal f on a geometry freshly built with the coordinates g has now (a cached
+	// bound, measure or encoding inside the geometry survives the in-place change)
+	for _, g0 := range liveStarts() {
+		alpha := liveAlphabet(g0)
+		probe := pure.InputForModel("live", g0.Clone())
+		for f := range fns {
+			if !fns[f].Applies(probe) {
+				continue
+			}
+			for _, st := range alpha {
+				if st.Op == "Q" {
+					continue
+				}
+				m := g0.Clone()
+				live := pure.InputForModel("live", m)
+				var rLive, rFresh string
+				applied := false
+				p, _ := engine.Guard(func() {
+					fns[f].Call(live)
+					if !applyStep(st, live.T, m, 0) {
+						return
+					}
+					applied = true
+					after := pure.InputForModel("live", m)
+					if !fns[f].Applies(after) {
+						applied = false
+						return
+					}
+					fresh := pure.InputForModel("live", m)
+					after.T = live.T
+					if live.T != nil && m.Kind != ref.Collection {
+						after.Flat = append([]float64{}, live.T.FlatCoords()...)
+					}
+					rLive = fns[f].Call(after)
+					rFresh = fns[f].Call(fresh)
+				})
+				if p != nil || !applied {
+					continue
+				}
+				c.Count("evaluations", 1)
+				if rLive != rFresh {
+					c.Violate("hidden-object-state/"+fns[f].Name+"/after-"+st.Op, fmt.Sprintf("%s on a %s %s that was queried, changed in place by %v and queried again returns %s; a geometry freshly built with the same coordinates gives %s", fns[f].Name, g0.Kind, g0.Layout, st, clipStr(rLive, 200), clipStr(rFresh, 200)), "live", c17LiveCase{G: g0, Step: st, Fn: fns[f].Name})
+					continue
+				}
+				c.Count("live_differential_ok", 1)
+			}
+		}
+	}
 	// solo results of every function on every input, taken before anything is overwritten
 	for g := range fns {
 		for j := 0; j < nIn; j++ {
@@ -367,6 +424,33 @@ func c17Replay(c *engine.Ctx, kind string, raw json.RawMessage) {
 	switch kind {
 	case "purity":
 		c17Purity(c, cs.Fns[0], cs.Inputs[0])
+	case "live":
+		lc := decodeCase[c17LiveCase](raw)
+		fns := pure.Registry()
+		for i := range fns {
+			if fns[i].Name != lc.Fn {
+				continue
+			}
+			m := lc.G.Clone()
+			live := pure.InputForModel("live", m)
+			var rLive, rFresh string
+			ok := false
+			engine.Guard(func() {
+				fns[i].Call(live)
+				if !applyStep(lc.Step, live.T, m, 0) {
+					return
+				}
+				after, fresh := pure.InputForModel("live", m), pure.InputForModel("live", m)
+				after.T = live.T
+				if live.T != nil && m.Kind != ref.Collection {
+					after.Flat = append([]float64{}, live.T.FlatCoords()...)
+				}
+				rLive, rFresh, ok = fns[i].Call(after), fns[i].Call(fresh), true
+			})
+			if ok && rLive != rFresh {
+				c.Violate("hidden-object-state/"+lc.Fn+"/after-"+lc.Step.Op, "queried, changed in place, queried again: "+clipStr(rLive, 200)+" vs fresh "+clipStr(rFresh, 200), "live", lc)
+			}
+		}
 	case "tuple":
 		var ti int
 		fmt.Sscanf(cs.Inputs[0], "tuple%d", &ti)
